@@ -45,6 +45,9 @@ func init() {
 		ruleLookupErrorEndsRequest(c, "R11f")
 		ruleConflictIsAnswered(c, "R11g")
 		ruleReleaseMatchesTake(c, "R11h")
+		ruleNotFoundIsNotFound(c, "R11i")
+		ruleR09l(c, "R11j")
+		ruleReferencePassesThrough(c, "R11k")
 	})
 	register("C10", propMeta{
 		Level: "other",
@@ -60,6 +63,7 @@ func init() {
 		ruleReverseMirrors(c, "R10i")
 		ruleInMemoryIdentityLookups(c, "R10k")
 		ruleReleaseMatchesTake(c, "R10l")
+		ruleForceIsTheRequests(c, "R10m")
 		ruleRevertTranslation(c)
 		ruleReferencerSymmetric(c, "R10h")
 		ruleR02a(c, "R10e")
